@@ -193,7 +193,7 @@ def cases(tier, sd):
     return out
 
 
-def run_case(spec):
+def _run_case(spec):
     res = common.new_result(spec)
     grids, _ = engine.grid_plan(spec)
     period = spec['member'].get('period')
@@ -236,3 +236,7 @@ def run_case(spec):
                    tags=[c04.mclass(spec['member']), spec['mode'], spec['order']],
                    scale_hints=hints, by_class=True)
     return res
+
+
+def run_case(spec):
+    return engine.refine_if_marginal(_run_case, spec, _run_case(spec))
